@@ -93,9 +93,8 @@ def digitsVal (ds : Str) : Nat := ds.foldl (fun a c => 10 * a + (c.toNat - '0'.t
 
 /-- optional sign: `(negative, rest)` -/
 def takeSign : Str → Bool × Str
-  | '-' :: t => (true, t)
-  | '+' :: t => (false, t)
-  | s => (false, s)
+  | [] => (false, [])
+  | c :: t => if c == '-' then (true, t) else if c == '+' then (false, t) else (false, c :: t)
 
 def clampInt (lo hi v : Int) : Int := if v < lo then lo else if hi < v then hi else v
 
@@ -314,28 +313,34 @@ def assignToList {α : Type} (l : List α) (x : α) (index : Int) : Option (List
   else if l.length < index.toNat then none
   else some (l.set (index.toNat - 1) x)
 
+/-- `set_variable`, branch `if (!current_index)`: no index on the line -/
+def setScalar (v : Var) (p : Param) : Option Var :=
+  match v with
+  | .vInt _ => none                                             -- "expected a vectorised key as in key[1]"
+  | .vAscii _ => none
+  | .vInts _ => none
+  | .none => some v
+  | .int _ => match p with | .int n => some (.int n) | _ => some v
+  | .bool _ => match p with | .int n => some (.bool (n != 0)) | _ => some v
+  | .ascii _ => match p with | .str s => some (.ascii s) | _ => some v
+  | .choice vals _ => match p with | .str s => some (.choice vals (findInAsciiList s vals)) | _ => some v
+  | .ints _ => match p with | .ints l => some (.ints l) | _ => some v
+  | .strs _ => match p with | .strs l => some (.strs l) | _ => some v
+
+/-- `set_variable`, branch with an index: `assign_to_list` -/
+def setIndexed (v : Var) (p : Param) (index : Int) : Option Var :=
+  match v with
+  | .vInt l => match p with | .int n => (assignToList l n index).map .vInt | _ => none
+  | .vAscii l => match p with | .str s => (assignToList l s index).map .vAscii | _ => none
+  | .vInts l => match p with | .ints x => (assignToList l x index).map .vInts | _ => none
+  | _ => none                                                   -- "unexpected vectorisation of key"
+
 /-- `set_variable`: new value of the variable, `none` = `error()` thrown.
     (A `Param` of the wrong type cannot occur: `valueFor` chooses it from the same `Var`.) -/
 def setVariable (v : Var) (p : Param) (index : Int) : Option Var :=
-  match p with
-  | .absent => some v                            -- `if (!keyword_has_a_value) return;`
-  | _ =>
-    if index == 0 then
-      match v, p with
-      | .vInt _, _ | .vAscii _, _ | .vInts _, _ => none          -- "expected a vectorised key"
-      | .int _, .int n => some (.int n)
-      | .bool _, .int n => some (.bool (n != 0))
-      | .ascii _, .str s => some (.ascii s)
-      | .choice vals _, .str s => some (.choice vals (findInAsciiList s vals))
-      | .ints _, .ints l => some (.ints l)
-      | .strs _, .strs l => some (.strs l)
-      | v, _ => some v
-    else
-      match v, p with
-      | .vInt l, .int n => (assignToList l n index).map .vInt
-      | .vAscii l, .str s => (assignToList l s index).map .vAscii
-      | .vInts l, .ints x => (assignToList l x index).map .vInts
-      | _, _ => none                                              -- "unexpected vectorisation of key"
+  if p = .absent then some v                     -- `if (!keyword_has_a_value) return;`
+  else if index = 0 then setScalar v p
+  else setIndexed v p index
 
 inductive Tag
   | ok (b : Bool)      -- `parse` returned `b`
